@@ -155,3 +155,34 @@ Definition frun (c : cfg) (st : fstate) (evs : list fevent) : fstate := fold_lef
 Definition the_code : cfg := mkCfg true true.            (* /repo after fix F38 *)
 Definition before_F38 : cfg := mkCfg true false.
 Definition unlocked_flag : cfg := mkCfg false true.      (* seeded defect C10-4 *)
+
+(* ------------------------------------------------------------------------------------------------
+   Two locks.  Parallel.dispatch_one_batch holds Parallel._lock (P) while it pulls tasks from the input and calls
+   submit(), which takes shutdown_lock (S): the caller's order is P then S.  The done-callbacks of the futures
+   (BatchCompletionCallBack.__call__) take P.  They run in the manager thread: in process_result_item and in the
+   fail-all loop of terminate_broken.  The manager takes S only inside flag_as_broken / flag_as_shutting_down and
+   releases it before it runs any callback: it never holds S while it wants P, so there is no cycle.
+   [cbl] = true is seeded defect C10-14: the fail-all loop runs while holding S (taken at FFlag, released after
+   FFailAll).  [d] says the caller is inside dispatch_one_batch (holds P). *)
+Inductive gevent := GDispatchBegin | GDispatchEnd | GF (ev : fevent).
+
+Definition mgr_holds_S (cbl : bool) (st : fstate) : bool :=
+  (cbl && match mx st with MBreak2 _ => true | _ => false end)%bool.
+
+Definition gstep (cbl : bool) (c : cfg) (g : fstate * bool) (ev : gevent) : fstate * bool :=
+  let '(st, d) := g in
+  match ev with
+  | GDispatchBegin => match caller st with CIdle => (st, true) | _ => g end
+  | GDispatchEnd => match caller st with CIdle => (st, false) | _ => g end
+  | GF FCheck => if mgr_holds_S cbl st then g else (fstep c st FCheck, d)       (* submit: with shutdown_lock *)
+  | GF (FShutdown k) => if mgr_holds_S cbl st then g else (fstep c st (FShutdown k), d)
+  | GF FFailAll => if d then g else (fstep c st FFailAll, d)                    (* set_exception -> callbacks take P *)
+  | GF ev => (fstep c st ev, d)
+  end.
+
+Definition grun (cbl : bool) (c : cfg) (g : fstate * bool) (evs : list gevent) : fstate * bool :=
+  fold_left (gstep cbl c) evs g.
+
+(* both threads blocked on each other *)
+Definition deadlocked (cbl : bool) (g : fstate * bool) : bool :=
+  (snd g && mgr_holds_S cbl (fst g) && match caller (fst g) with CIdle => true | _ => false end)%bool.
